@@ -267,3 +267,70 @@ def builder_method_replayer(ctx, world, method, g, info, h0, arg_vals, kw_ref, e
         if extra is not None: extra(model, obl, b, lines, info_)
         return info_
     return rp
+
+
+# ---------------------------------------------------------------------------------------------- coordinate transformer
+def _real_transform(world, model, heap, ref):
+    import numpy as np
+    from gscrib.geometry.transform import Transform
+    t = Transform.__new__(Transform)
+    for f in ("_matrix", "_inverse", "_to_pivot", "_from_pivot"):
+        d = heap[heap[ref.oid][f].oid]["$a"]
+        setattr(t, f, np.array([[conc(world, model, c, heap) for c in row] for row in d], dtype=float))
+    t._pivot = conc(world, model, heap[ref.oid]["_pivot"], heap)
+    return t
+
+
+def _obs_transform(t):
+    return {f: [[float(c) for c in row] for row in getattr(t, f)] for f in ("_matrix", "_inverse", "_to_pivot", "_from_pivot")} | {"_pivot": tuple(t._pivot)}
+
+
+def transformer_replayer(ctx, world, method, tr, info, h0, arg_vals, exits):
+    def rp(model, obl, cover):
+        import numpy as np
+        from gscrib.geometry.transformer import CoordinateTransformer
+        real = CoordinateTransformer()
+        o = h0[tr.oid]
+        real._current_transform = _real_transform(world, model, h0, o["_current_transform"])
+        sobj = h0[o["_transforms_stack"].oid]
+        plen = int(str(model.eval(sobj["$plen"].val, model_completion=True)).split("/")[0]) if "$plen" in sobj else 0
+        plen = max(0, min(plen, 3))
+        real._transforms_stack = [_real_transform(world, model, h0, o["_current_transform"]) for _ in range(plen)] + \
+                                 [_real_transform(world, model, h0, r) for r in sobj["$l"].items]
+        nd = h0[o["_named_transforms"].oid]["$d"]
+        real._named_transforms = {k: _real_transform(world, model, h0, nd.vals[k]) for k in nd.present if vc.c_bool(model, nd.present[k])}
+        args = [conc(world, model, a, h0) for a in arg_vals]
+        out = call_real(getattr(real, method), args, {})
+        act = active_exit(model, exits)
+        info_ = {"call": f"CoordinateTransformer.{method}({', '.join(repr(a) for a in args)})", "observed": [out[0], out[1] if out[0] == "raise" else None],
+                 "named_before": sorted(nd_k for nd_k in real._named_transforms)}
+        if len(act) != 1:
+            info_.update(agrees=False, reproduced=False, detail=f"{len(act)} symbolic exits active"); return info_
+        e = act[0]; bad = []
+        if not outcome_matches(world, out, e): bad.append(f"outcome: symbolic {e.kind}:{e.payload} real {out[0]}:{out[1]}")
+        eo = e.heap[tr.oid]
+        def cmp(name, real_t, ref):
+            exp = {f: [[conc(world, model, c, e.heap) for c in row] for row in e.heap[e.heap[ref.oid][f].oid]["$a"]] for f in ("_matrix", "_inverse", "_to_pivot", "_from_pivot")}
+            got = _obs_transform(real_t)
+            for f in exp:
+                if not vc.same_py(exp[f], got[f], 1e-7): bad.append(f"{name}.{f}: expected {exp[f]} got {got[f]}")
+        cmp("current", real._current_transform, eo["_current_transform"])
+        vis = e.heap[eo["_transforms_stack"].oid]["$l"].items
+        if len(real._transforms_stack) != plen + len(vis): bad.append(f"stack length: expected prefix+{len(vis)} got {len(real._transforms_stack)}")
+        else:
+            for i, r in enumerate(vis): cmp(f"stack[{i}]", real._transforms_stack[plen + i], r)
+        nd1 = e.heap[eo["_named_transforms"].oid]["$d"]
+        exp_names = sorted(k for k in nd1.present if vc.c_bool(model, nd1.present[k]))
+        if exp_names != sorted(real._named_transforms): bad.append(f"named keys: expected {exp_names} got {sorted(real._named_transforms)}")
+        else:
+            for k in exp_names: cmp(f"named[{k}]", real._named_transforms[k], nd1.vals[k])
+        # aliasing structure: which registered objects is the current transform identical to
+        real_alias = sorted(k for k, t in real._named_transforms.items() if t is real._current_transform)
+        sym_alias = sorted(k for k in exp_names if nd1.vals[k].oid == eo["_current_transform"].oid)
+        if real_alias != sym_alias: bad.append(f"aliasing current~named: symbolic {sym_alias} real {real_alias}")
+        info_["aliasing_current_named"] = real_alias
+        info_["symbolic_exit"] = f"{e.kind}:{e.payload if e.kind == 'raise' else ''} @{e.where}"
+        info_["agrees"] = not bad; info_["detail"] = "; ".join(bad[:4])
+        info_["reproduced"] = (not bad) and (obl.exit is None or obl.exit is e)
+        return info_
+    return rp
